@@ -28,6 +28,7 @@ type Driver struct {
 }
 
 type childOut struct {
+	SymCheck   string          `json:"symmetry_cross_check,omitempty"`
 	Name       string          `json:"name"`
 	Stats      *vrt.Stats      `json:"stats"`
 	Completed  string          `json:"completed_bound"`
@@ -75,7 +76,37 @@ func runChild(d Driver) childOut {
 		}
 	}
 	out.Violations = st.Violations
+	// symmetry reduction is cross-checked where that is affordable: the same driver explored without it
+	// must show exactly the same set of observable outcomes
+	if d.Cfg.Symmetry && st.Exhaustive && out.Completed == "none(unbounded)" && len(st.Violations) == 0 && st.Executions <= 30000 {
+		cfg := d.Cfg
+		cfg.Symmetry = false
+		cfg.Budget = d.Cfg.Budget / 2
+		st2 := vrt.NewExplorer(cfg).Explore(d.Mk)
+		switch {
+		case !st2.Exhaustive:
+			out.SymCheck = fmt.Sprintf("not completed without symmetry (%s)", st2.Why)
+		case !sameOutcomes(st.Outcomes, st2.Outcomes) || len(st2.Violations) > 0:
+			out.SymCheck = "MISMATCH"
+			st.Exhaustive = false
+			st.Why = fmt.Sprintf("symmetry cross-check failed: %d outcomes with the reduction, %d without (violations without: %d); nothing is claimed for this driver", len(st.Outcomes), len(st2.Outcomes), len(st2.Violations))
+		default:
+			out.SymCheck = fmt.Sprintf("same %d outcomes without the reduction (%d executions, %d states; with it %d executions, %d states)", len(st2.Outcomes), st2.Executions, st2.States, st.Executions, st.States)
+		}
+	}
 	return out
+}
+
+func sameOutcomes(a, b map[string]int64) bool {
+	if len(a) != len(b) {
+		return false
+	}
+	for k := range a {
+		if _, ok := b[k]; !ok {
+			return false
+		}
+	}
+	return true
 }
 
 // Extra, when set, runs after the drivers in the parent process (sequential
@@ -179,7 +210,7 @@ func Main(id, level string, drivers func(quick bool) []Driver, describe func(c *
 				c.Note("driver %s: one outcome from %d executions (nothing collided?)", o.Name, st.Executions)
 			}
 			per[o.Name] = map[string]interface{}{"executions": st.Executions, "states": st.States, "transitions": st.Transitions, "cuts": st.Cuts,
-				"max_depth": st.MaxDepth, "threads": st.MaxThreads, "outcomes": st.OutcomeList(), "exhaustive": st.Exhaustive, "bound": o.Completed}
+				"max_depth": st.MaxDepth, "threads": st.MaxThreads, "outcomes": st.OutcomeList(), "exhaustive": st.Exhaustive, "bound": o.Completed, "symmetry_cross_check": o.SymCheck}
 			if len(st.Samples) > 0 {
 				c.Sample(map[string]interface{}{"driver": o.Name, "schedule": st.Samples[0]})
 			}
